@@ -3,8 +3,7 @@ Executable predicates ("cores") that the chunked `decide +kernel` sweeps (XknxVe
 nothing else: the sweep shards import only this file, so that editing lemma files does not invalidate them.
 Core Lean only.
 -/
-import XknxVerif.Model.DPT.Codec
-import XknxVerif.Generated.DPTParams
+import XknxVerif.Model.DPT.CoresNum
 import XknxVerif.Generated.DPTTable
 
 namespace XknxVerif.DPT
@@ -33,30 +32,6 @@ conjunction is super-linear) -/
 def rt1ChunkA (ctx : Ctx) (r : Row) (k : Nat) : Bool := (List.range 16).all fun j => rtB ctx r (.array [16 * k + j])
 def rt1ChunkB (ctx : Ctx) (r : Row) (k : Nat) : Bool := (List.range 16).all fun j => rtB ctx r (.binary (16 * k + j))
 
-/-- the declared parameters every sweep ranges over -/
-def s16Params (r : Row) : PyNum × PyNum × PyNum := (r.vmin, r.vmax, r.res)
-
-/-- numeric core of the DPT 8 round trip: raw → value → raw -/
-def s16Core (P : PyNum × PyNum × PyNum) (i : Int) : Bool :=
-  s16Raw P.1 P.2.1 P.2.2 (s16Value P.2.2 i) == .ok i
-
-/-- value of a 16 bit word -/
-def f16Word (data : Nat) : F := f16Value (f16Parts data).1 (f16Parts data).2
-
-/-- numeric core of the DPT 9 round trip for a decoded value `v`: the encoder's candidate mantissa reproduces
-`v` exactly (so the range guard of fix a5afb5f never fires on decoded values) and the octets decode to `v` -/
-def f16CoreV (v : F) : Bool :=
-  match f16Pre v with
-  | .fail => false
-  | .zero => f16Word 0 == v
-  | .cand k' e m0 _ =>
-    f16Value m0 e == v &&
-      (match f16Finish m0 e k' with
-       | [x, y] => decide (x < 256) && decide (y < 256) && f16Word (x * 256 + y) == v
-       | _ => false)
-
-def f16Core (data : Nat) : Bool := f16CoreV (f16Word data)
-
 /-- the rows other codecs delegate to, taken from the generated table -/
 def tableCtx : Ctx := Ctx.ofTable Generated.table
 
@@ -67,20 +42,5 @@ def oneItemRows : List Row := Generated.table.filter fun r => rawLen r == 1
 def oneItemChunkA (k : Nat) : Bool := oneItemRows.all fun r => rt1ChunkA tableCtx r k
 /-- … 16 six-bit payloads × every such class -/
 def oneItemChunkB (k : Nat) : Bool := oneItemRows.all fun r => rt1ChunkB tableCtx r k
-
-/-- two's complement reading of a 16 bit word -/
-def toS16 (n : Nat) : Int := if n ≥ 32768 then (n : Int) - 65536 else (n : Int)
-
-/-- DPT 8 parameter tuples whose resolution is a float (DPTPercentV16): their round trip goes through inexact
-binary64 arithmetic and is established by the kernel sweep below -/
-def s16FloatParams : List (PyNum × PyNum × PyNum) :=
-  Generated.s16ParamList.filter fun P => match P.2.2 with | .flt _ => true | .int _ => false
-
-/-- chunk `k` (64 raw words) of the DPT 8 sweep, over every float-resolution parameter tuple -/
-def s16Chunk (k : Nat) : Bool :=
-  s16FloatParams.all fun P => (List.range 64).all fun j => s16Core P (toS16 (64 * k + j))
-
-/-- chunk `k` (256 words) of the DPT 9 numeric core -/
-def f16Chunk (k : Nat) : Bool := (List.range 256).all fun j => f16Core (256 * k + j)
 
 end XknxVerif.DPT
